@@ -37,6 +37,7 @@ func envOr(k, d string) string {
 
 type Prog struct {
 	roFields map[string]bool
+	renames  map[*ssa.Function]*renameInfo
 	pkgs      []*packages.Package
 	byPath    map[string]*packages.Package
 	prog      *ssa.Program
